@@ -23,11 +23,13 @@ import (
 	"hash/fnv"
 	"os"
 	"path/filepath"
+	"runtime"
 	"runtime/debug"
 	"sort"
 	"strconv"
 	"strings"
 	"sync"
+	"sync/atomic"
 	"testing"
 	"time"
 
@@ -422,7 +424,10 @@ func Check(t *testing.T, quick, thorough int, prop func(*rapid.T)) {
 // failure is recorded as a replay file before the rapid test is failed (so
 // that the last recorded case is the shrunk one).
 func Try(rt *rapid.T, test string, c interface{}, f func() error) {
-	if err := Guard(f); err != nil {
+	watch(test, c)
+	err := Guard(f)
+	unwatch()
+	if err != nil {
 		p := RecordFailure(test, c, err)
 		rt.Fatalf("%s: %v (replay %s)", test, err, p)
 	}
@@ -430,7 +435,10 @@ func Try(rt *rapid.T, test string, c interface{}, f func() error) {
 
 // TryT is Try for plain (enumeration) tests.
 func TryT(t *testing.T, test string, c interface{}, f func() error) {
-	if err := Guard(f); err != nil {
+	watch(test, c)
+	err := Guard(f)
+	unwatch()
+	if err != nil {
 		p := RecordFailure(test, c, err)
 		t.Fatalf("%s: %v (replay %s)", test, err, p)
 	}
@@ -524,3 +532,62 @@ func InFlight(test string, c interface{}) {
 
 // InFlightDone removes the in-flight marker.
 func InFlightDone() { _ = os.Remove("inflight.json") }
+
+// ---------------------------------------------------------------- watchdog
+
+// A case that runs longer than caseTimeout or drives the heap above heapLimit
+// is a failure of the code under test (hang / runaway allocation): the
+// watchdog records the case as a replay file and ends the process, which the
+// driver reports as a violation. Both limits are orders of magnitude above
+// what any legitimate case needs (cases take microseconds to milliseconds and
+// kilobytes to megabytes).
+var (
+	caseTimeout = 120 * time.Second
+	heapLimit   = uint64(3 << 30)
+	curCase     atomic.Pointer[watched]
+	wdOnce      sync.Once
+)
+
+type watched struct {
+	test  string
+	c     interface{}
+	start time.Time
+}
+
+// SetLimits overrides the watchdog limits (call before the first Try).
+func SetLimits(timeout time.Duration, heapBytes uint64) {
+	caseTimeout, heapLimit = timeout, heapBytes
+}
+
+func watch(test string, c interface{}) {
+	wdOnce.Do(func() { go watchdog() })
+	curCase.Store(&watched{test, c, time.Now()})
+}
+
+func unwatch() { curCase.Store(nil) }
+
+func watchdog() {
+	var ms runtime.MemStats
+	tick := 0
+	for {
+		time.Sleep(50 * time.Millisecond)
+		w := curCase.Load()
+		if w == nil {
+			continue
+		}
+		tick++
+		if time.Since(w.start) > caseTimeout {
+			if curCase.Load() == w {
+				RecordFailure(w.test, w.c, fmt.Errorf("watchdog: the case did not return within %v (hang)", caseTimeout))
+				os.Exit(1)
+			}
+		}
+		if tick%4 == 0 {
+			runtime.ReadMemStats(&ms)
+			if ms.HeapAlloc > heapLimit && curCase.Load() == w {
+				RecordFailure(w.test, w.c, fmt.Errorf("watchdog: heap grew to %d MiB while deciding this case (runaway allocation)", ms.HeapAlloc>>20))
+				os.Exit(1)
+			}
+		}
+	}
+}
